@@ -106,7 +106,8 @@ def scalar_job(j):
     r = run.unc(src, None, "C")
     good = r.rc == 0 and not r.timeout and r.out == src
     if r.rc == 0 and not r.timeout:
-        res["nontrivial"] = len(chunk)
+        res["nontrivial"] = 1
+        res["scalars_ok"] = len(chunk) if good else 0
     if good:
         return res
     if kind == "ident" and r.rc not in (0, None) and not r.out:
@@ -260,6 +261,7 @@ def check(ctx):
 
     def take(res):
         agg["runs"] += res["runs"]; agg["nontrivial"] += res["nontrivial"]
+        agg["scalars_ok"] = agg.get("scalars_ok", 0) + res.get("scalars_ok", 0)
         for w, files in res["viol"]:
             ctx.rep.violation(w, files, ["/verif/build/hooks/uncrustify", "-c", "/dev/null", "-l", "C", "-f", "input"])
 
@@ -316,11 +318,11 @@ def check(ctx):
         "states": len(sj) + len(cj) + len(ij), "transitions": agg["runs"], "traces_validated_against_impl": agg["runs"],
         "rule": "(i) %d Unicode scalars x {comment+string, identifier} x encodings, 512 per file (%d files); (ii) %d (program, profile, utf8_bom, "
                 "utf8_byte, utf8_force) cases x 6 input encodings against the UTF-8 reference run; (iii) %d byte sequences x 3 placements + %d "
-                "UTF-16 surrogate/length cases. distinct_nontrivial counts scalars reproduced in a successfully formatted file, commutation runs "
-                "whose output differs from the input, and refused invalid inputs" % (len(sc), len(sj), len(cj), len(allseq), len(utf16_cases())),
+                "UTF-16 surrogate/length cases. distinct_nontrivial counts executions: scalar files formatted successfully, commutation runs "
+                "whose output differs from the input, and refused invalid inputs (scalar placements reproduced: see scalar_placements_reproduced)" % (len(sc), len(sj), len(cj), len(allseq), len(utf16_cases())),
         "samples": [{"scalar_file": sj[3][0] + "/" + sj[3][1] + "/U+%04X.." % sj[3][2]}, {"commutation": list(cj[5][:2]) + list(cj[5][3:4]) + list(cj[5][5:])},
                     {"invalid": "// a" + bytes(allseq[300]).hex() + "b"}],
-        "scalars": len(sc), "jobs_done": njobs,
+        "scalars": len(sc), "jobs_done": njobs, "scalar_placements_reproduced": agg.get("scalars_ok", 0),
     }
     return {"level": LEVEL, "coverage": cov,
             "assumptions": ["Python's codecs as the reference encoder/decoder", "packing 512 scalars per file; a failing file is bisected to single scalars"]}
